@@ -2,7 +2,9 @@
 
 Decided: CALLABLE-AS-DATA (the tensor accessors of DiscreteHMMConfiguration appear only in call position); SIBLING-DENSITY (sampler and density
 read the same three tensors with the same initial row); the posterior is joint minus marginal (normalised); random_weighted scores the sequence it
-sampled, with distinct keys.  Not decided: numeric exactness of the posterior / sampler (declined).
+sampled, with distinct keys; FFBS-RECURSION (the sampler's two scans have the forward-filter / backward-sample recursion: alpha_t from obs column and
+logsumexp(alpha_{t-1} + T), normalised filters, backward scan over the reversed filters with x_T from the last filter and x_{t-1} from
+filter + T[., x_t] normalised, fresh sub key per step, samples flipped back; linear forms, both orientations of the symmetric tensors accepted).  Not decided: numeric exactness of the posterior / sampler (declined).
 """
 import ast
 
@@ -117,3 +119,120 @@ def run(chk, prog):
     ev5.opaque_funcs.add("latent_marginals")
     rd = ev5.eval_fn(ld, m)
     chk.require(is_mcall(rd.ret, "log_prob") and rd.ret[2] == (OBS,), "WEIGHT-INF", "log_data_marginal", "marginal likelihood from the same hmm", derived=show(rd.ret)[:160], expected="hmm.log_prob(observation_sequence)", where=chk.where(m, ld))
+    ffbs_rules(chk, prog, m, ff)
+
+
+def _strip_phi(t, idx_term):
+    """(first_arm, later_arm) of a two-way choice on `idx_term == 0` (either polarity); None when t is not such a choice"""
+    if not is_t(t, "phi"):
+        return None
+    test = t[1]
+    if is_t(test, "cmp") and test[2] == idx_term and test[3] == C(0):
+        if test[1] == "==":
+            return t[2], t[3]
+        if test[1] == "!=":
+            return t[3], t[2]
+    return None
+
+
+def ffbs_rules(chk, prog, m, ff):
+    """FFBS-RECURSION: the forward scan carries alpha_t = obs[:, y_t] + (t == 0 ? prior : logsumexp(alpha_{t-1} + T)) and emits the normalised filter;
+    the backward scan runs over the REVERSED filters, samples x_T from the last filter and x_{t-1} from filter_{t-1} + T[:, x_t] (normalised), with a fresh
+    sub key per step, and the samples are flipped back into forward order."""
+    ev = Evaluator(prog)
+    r = ev.eval_fn(ff, m)
+    where = chk.where(m, ff)
+    if len(ev.scans) != 2:
+        raise AnalysisError(f"forward_filtering_backward_sampling: expected 2 scans, found {len(ev.scans)}")
+    (fid, F), (bid, B) = sorted(ev.scans.items())
+    env = r.env
+    prior, trn, obn = env.get("prior"), env.get("transition_n"), env.get("obs_n")
+    OBS = P("observation_sequence")
+    one = lambda t: {frozenset([t]): 1}
+
+    def req(ok, inst, what, derived, expected):
+        chk.require(bool(ok), "FFBS-RECURSION", f"ffbs/{inst}", what, derived=show(derived)[:300] if isinstance(derived, tuple) else str(derived)[:300], expected=expected, where=where)
+
+    ALL = ("sliceobj", C(None), C(None), C(None))
+    # scaled_circulant builds SYMMETRIC circulant tensors (source[i] == source[N - i]); the code in the tree itself relies on it (the forward recursion
+    # sums over the second axis of T).  Row i and column i are therefore the same vector, and both orientations are accepted.
+    line_of = lambda ix, i: ix in (("tuple", (ALL, i)), ("tuple", (i, ALL)), i)
+    # ---------------- forward pass
+    okf = is_t(F.init, "tuple") and len(F.init[1]) == 2
+    req(okf and F.init[1][0] == C(0) and F.init[1][1] == prior, "forward/init", "initial carry of the forward scan", F.init, "(0, prior)")
+    req(F.xs == OBS, "forward/xs", "forward scan runs over the observations", F.xs, "observation_sequence")
+    if not okf:
+        return
+    idx, prev = ("scanc", fid, 0), ("scanc", fid, 1)
+    co, y = F.carry_out, F.y
+    oky = is_t(co, "tuple") and len(co[1]) == 2 and is_t(y, "tuple") and len(y[1]) == 2
+    req(oky, "forward/shape", "forward step returns ((index', alpha), (alpha, filter))", co, "2-tuples")
+    if not oky:
+        return
+    alpha = y[1][0]
+    req(lin(co[1][0]) == {frozenset([idx]): 1, frozenset(): 1}, "forward/index", "step counter", co[1][0], "index + 1")
+    req(co[1][1] == alpha, "forward/carry", "the carried alpha is this step's alpha", co[1][1], "alpha (the same term that is emitted)")
+    req(lin(y[1][1]) == {frozenset([alpha]): 1, frozenset([("call", ("global", "jax.scipy.special.logsumexp"), (alpha,), ())]): -1}, "forward/filter", "the emitted filter is the normalised alpha", show_lin(lin(y[1][1]))[:300], "alpha - logsumexp(alpha)")
+    arms = _strip_phi(alpha, idx)
+    req(arms is not None, "forward/branch", "alpha chooses the initial branch exactly at index 0", alpha, "cond(index == 0, init_branch, t_branch, prev, obs)")
+    if arms is not None:
+        sel = ("tuple", (("sliceobj", C(None), C(None), C(None)), ("elem", OBS)))
+        col = lambda v: ("call", ("attr", v, "reshape"), (C(-1), C(1)), ())
+        a0, a1 = arms
+        req(is_t(a0, "index") and line_of(a0[2], ("elem", OBS)) and lin(a0[1]) == {frozenset([obn]): 1, frozenset([col(prev)]): 1}, "forward/init-branch", "alpha_1", a0, "(obs_n + prior.reshape(-1, 1))[:, y_1]")
+        ok1 = is_t(a1, "index") and line_of(a1[2], ("elem", OBS))
+        if ok1:
+            f1 = lin(a1[1])
+            rest = [mm for mm in f1 if mm != frozenset([obn])]
+            ok1 = f1.get(frozenset([obn])) == 1 and len(rest) == 1 and f1[rest[0]] == 1 and len(rest[0]) == 1
+            if ok1:
+                t_ = next(iter(rest[0]))
+                ok1 = is_mcall(t_, "reshape") and t_[2] == (C(-1), C(1)) and is_call(t_[1][1], "logsumexp") and (
+                    (dict(t_[1][1][3]).get("axis") in (C(-1), C(1)) and lin(t_[1][1][2][0]) == {frozenset([prev]): 1, frozenset([trn]): 1})
+                    or (dict(t_[1][1][3]).get("axis") == C(0) and lin(t_[1][1][2][0]) == {frozenset([col(prev)]): 1, frozenset([trn]): 1}))
+        req(ok1, "forward/t-branch", "alpha_t", a1, "(obs_n + logsumexp(alpha_{t-1} + transition_n, axis=-1).reshape(-1, 1))[:, y_t]")
+    # ---------------- backward pass
+    filters = ("stack", y[1][1])
+    flipped = lambda x: is_call(x, "flip") and x[2] and x[2][0] == filters and (dict(x[3]).get("axis") == C(0) or (len(x[2]) > 1 and x[2][1] == C(0)))
+    req(flipped(B.xs), "backward/xs", "the backward scan runs over the filters in reverse time order", B.xs, "jnp.flip(forward_filters, axis=0)")
+    okb = is_t(B.init, "tuple") and len(B.init[1]) == 3 and is_t(B.carry_out, "tuple") and len(B.carry_out[1]) == 3
+    req(okb and B.init[1][0] == P("key") and B.init[1][1] == C(0), "backward/init", "initial carry of the backward scan", B.init, "(key, 0, <unused>)")
+    if not okb:
+        return
+    bk, bi, bs = ("scanc", bid, 0), ("scanc", bid, 1), ("scanc", bid, 2)
+    sp = ("call", ("global", "jax.random.split"), (bk,), ())
+    co = B.carry_out[1]
+    smp = B.y
+    req(co[0] == mk_proj(sp, 0), "backward/key", "the carried key is the first child of split(key)", co[0], "split(key)[0]")
+    req(lin(co[1]) == {frozenset([bi]): 1, frozenset(): 1}, "backward/index", "step counter", co[1], "index + 1")
+    req(co[2] == smp, "backward/carry", "the carried sample is this step's sample", co[2], "the emitted sample")
+    arms = _strip_phi(smp, bi)
+    req(arms is not None, "backward/branch", "the end branch is taken exactly at index 0 (time T)", smp, "cond(index == 0, end_branch, t_1_branch, ...)")
+    if arms is not None:
+        ffl = ("elem", B.xs)
+        cat = lambda t: is_call(t, "categorical") and len(t[2]) == 2 and t[2][0] == mk_proj(sp, 1)
+        e0, e1 = arms
+        req(cat(e0) and e0[2][1] == ffl, "backward/end-branch", "x_T ~ last filter", e0, "categorical(sub_key, forward_filter)")
+        ok1 = cat(e1)
+        if ok1:
+            f1 = lin(e1[2][1])
+            negs = [mm for mm, c in f1.items() if c == -1]
+            pos = {mm: c for mm, c in f1.items() if c == 1}
+            def bd_ok(f_):
+                others = [mm for mm in f_ if mm != frozenset([ffl])]
+                if f_.get(frozenset([ffl])) != 1 or len(others) != 1 or f_[others[0]] != 1 or len(others[0]) != 1:
+                    return False
+                t_ = next(iter(others[0]))
+                return is_t(t_, "index") and t_[1] == trn and line_of(t_[2], bs)
+            ok1 = len(negs) == 1 and len(negs[0]) == 1 and len(pos) == len(f1) - 1 and bd_ok(pos)
+            if ok1:
+                z = next(iter(negs[0]))
+                ok1 = is_call(z, "logsumexp") and bd_ok(lin(z[2][0]))
+        req(ok1, "backward/t-1-branch", "x_{t-1} ~ filter_{t-1} + T[:, x_t], normalised", e1, "categorical(sub_key, bd - logsumexp(bd)) with bd = forward_filter + transition_n[:, prev_sample]")
+    # ---------------- result
+    ret = r.ret
+    okr = is_t(ret, "tuple") and len(ret[1]) == 2 and is_t(ret[1][1], "tuple") and len(ret[1][1][1]) == 2
+    if okr:
+        s_, f_ = ret[1][1][1]
+        okr = is_call(s_, "flip") and s_[2][0] == ("stack", smp) and f_ == filters
+    req(okr, "result", "samples are flipped back into forward time order; filters returned as computed", ret, "(key, (jnp.flip(samples), forward_filters))")
